@@ -489,6 +489,20 @@ func RunHostileHistory(o HistOpts) *HistResult {
 		}
 		r.Do(s)
 	}
+	// pods whose affinity annotations are syntactically well-formed expressions over every operator and value count:
+	// what passes validation is evaluated against the sibling containers when those are created
+	for n := 1; n <= 2 && !r.Broken; n++ {
+		pk := fmt.Sprintf("aff%d", n)
+		r.Do(&Step{Op: "runpod", Pod: pk, NS: sysgen.Pick(rng, []string{"default", "ns-a"}), QoS: "Burstable", Labels: map[string]string{"tier": "perf"},
+			Ann: map[string]string{nsKey + "/affinity": g.structuredAffinity(), nsKey + "/anti-affinity": g.structuredAffinity()}})
+		for i, name := range []string{"c0", "c1", "c2"} {
+			if r.Broken {
+				break
+			}
+			r.Do(&Step{Op: "create", Pod: pk, Ctr: fmt.Sprintf("%s.%d", pk, i), Name: name, Req: 100, Lim: 200, MemLim: 64 << 20, MemReq: 32 << 20})
+			r.Count("c14_creates_under_structured_affinity")
+		}
+	}
 	nc := 0
 	for i := 0; i < o.Steps && !r.Broken; i++ {
 		s := g.HostileStep(r)
